@@ -148,4 +148,10 @@ MUTANTS = [
     dict(name="seed-C12-last-token-dup", prop="C12", units=["u_tree"], patch="seeded/C12-build-tree-last-token-dup/patch.diff", expect=1),
     dict(name="seed-C09-dyncall", prop="C09", units=["u_ceffect"], patch="seeded/C09-dyncall-effect-dropped/patch.diff", expect=1),
     dict(name="seed-C16-orphan-prefix", prop="C16", units=["u_orphan"], patch="seeded/C16-orphan-prefix-locality/patch.diff", expect=1),
+    dict(name="seed-C07-collapsed-args", prop="C07", units=["u_tmono"], patch="seeded/C07-struct-instance-collapsed-args/patch.diff", expect=1),
+    # ---- U-TMONO
+    dict(name="tmono-drop-vec-arm", prop="C07", units=["u_tmono"], file="crates/compiler/src/mono.rs", expect=1,
+         old="            Ty::TVec { elem } => Ty::TVec {\n                elem: Box::new(self.collapse_type_apps(elem)),\n            },\n", new=""),
+    dict(name="tmono-array-elem-not-collapsed", prop="C07", units=["u_tmono"], file="crates/compiler/src/mono.rs", expect=1,
+         old="                len: *len,\n                elem: Box::new(self.collapse_type_apps(elem)),", new="                len: *len,\n                elem: elem.clone(),"),
 ]
